@@ -81,7 +81,46 @@ def fock_unrestricted(Pa, Pb):
 # ------------------------------------------------------------------------------------------------------------
 # code side: interpret a one-centre routine element by element
 
-def interpret_one_center(mod, func, base_map, scalars, index_vectors=None):
+def scratch_tensor(func):
+    """name of the local block tensor that collects the one-centre terms: the value accumulated into the first parameter
+    (`F[maskd] += S` / `F[:, maskd] += S`), else the name with the most two-index stores"""
+    import ast
+    first = func.args.args[0].arg if func.args.args else None
+    for st in ast.walk(func):
+        if isinstance(st, ast.AugAssign) and isinstance(st.op, ast.Add) and isinstance(st.target, ast.Subscript) and isinstance(st.target.value, ast.Name) \
+                and st.target.value.id == first and isinstance(st.value, ast.Name):
+            return st.value.id
+    count = {}
+    for st in ast.walk(func):
+        if isinstance(st, ast.Assign) and isinstance(st.targets[0], ast.Subscript) and isinstance(st.targets[0].value, ast.Name) and isinstance(st.targets[0].slice, ast.Tuple):
+            count[st.targets[0].value.id] = count.get(st.targets[0].value.id, 0) + 1
+    return max(count, key=count.get) if count else None
+
+
+def density_locals(func, roles):
+    """{local name: role} for locals that are atom-diagonal selections of the density parameters.
+    roles: {parameter index: role}.  `X = <param>[...mask...]` (possibly with .unsqueeze) inherits the parameter's role;
+    `Y = <spin local>[[1, 0]]` is the opposite-spin view ("opp")."""
+    import ast
+    params = [a.arg for a in func.args.args]
+    prole = {params[i]: r for i, r in roles.items() if i < len(params)}
+    out = {}
+    for st in func.body:
+        if not (isinstance(st, ast.Assign) and len(st.targets) == 1 and isinstance(st.targets[0], ast.Name)):
+            continue
+        v = st.value
+        while isinstance(v, ast.Call) and isinstance(v.func, ast.Attribute) and v.func.attr in ("unsqueeze", "contiguous", "clone"):
+            v = v.func.value
+        if isinstance(v, ast.Subscript) and isinstance(v.value, ast.Name):
+            base = v.value.id
+            if base in prole and any(isinstance(x, ast.Name) and x.id in params for x in ast.walk(v.slice)):
+                out[st.targets[0].id] = prole[base]
+            elif base in out and out[base] == "spin" and isinstance(v.slice, ast.List) and [getattr(e, "value", None) for e in v.slice.elts] == [1, 0]:
+                out[st.targets[0].id] = "opp"
+    return out
+
+
+def interpret_one_center(mod, func, base_map, scalars, index_vectors=None, scratch="tmp"):
     """Return {(a, b): sympy expr} for every store `tmp[..., a, b] = value` in `func`.
 
     base_map:  tensor name -> callable(a, b) giving the symbolic matrix element (e.g. 'Pdiag' -> P[a][b])
@@ -157,7 +196,7 @@ def interpret_one_center(mod, func, base_map, scalars, index_vectors=None):
                         env[t.id] = to_sympy(st.value, local_env, funcs)
                     except AnalysisError:
                         env.pop(t.id, None)
-                elif isinstance(t, ast.Subscript) and isinstance(t.value, ast.Name) and t.value.id == "tmp":
+                elif isinstance(t, ast.Subscript) and isinstance(t.value, ast.Name) and t.value.id == scratch:
                     sl = t.slice
                     elts = list(sl.elts) if isinstance(sl, ast.Tuple) else [sl]
                     idx = [e for e in elts if not (isinstance(e, ast.Slice) or (isinstance(e, ast.Constant) and e.value is Ellipsis))]
